@@ -12,7 +12,7 @@ import copy
 from .cfg import CFG, reaching_defs
 from .index import ClassInfo, FuncInfo, Module
 
-CASTS = {"numpy.asanyarray", "numpy.asarray", "numpy.array", "numpy.ascontiguousarray", "numpy.float64", "numpy.asfarray", "float", "numpy.require"}
+CASTS = {"bool", "numpy.asanyarray", "numpy.asarray", "numpy.array", "numpy.ascontiguousarray", "numpy.float64", "numpy.asfarray", "float", "numpy.require"}
 
 
 class Prov:
@@ -53,6 +53,10 @@ class Prov:
                         best = st
         return best
 
+    def stmt_of_return(self, r):
+        """the Return node itself when it belongs to this function (not to a nested def)"""
+        return r if self.cfg.nodes_of.get(id(r)) else None
+
     def node_at(self, stmt):
         ns = self.cfg.nodes_of.get(id(stmt))
         return ns[0] if ns else None
@@ -63,8 +67,8 @@ class Prov:
             return None
         return sorted(d for (x, d) in self.rd[n] if x == name)
 
-    def inline(self, expr, at_stmt, depth=None):
-        """copy of expr with uniquely-defined locals replaced by their definitions"""
+    def inline(self, expr, at_stmt, depth=None, stop=()):
+        """copy of expr with uniquely-defined locals replaced by their definitions; names in `stop` are kept as `L_<name>`"""
         depth = self.depth if depth is None else depth
         prov = self
 
@@ -72,6 +76,8 @@ class Prov:
             def visit_Name(self, node):
                 if not isinstance(node.ctx, ast.Load):
                     return node
+                if node.id in stop:
+                    return ast.Name(id=f"L_{node.id}", ctx=ast.Load())
                 ds = prov.defs_at(at_stmt, node.id)
                 if ds is None or not ds:
                     return node  # global / builtin / closure
@@ -81,13 +87,13 @@ class Prov:
                     st = prov.cfg.stmt[ds[0]]
                     if isinstance(st, ast.Assign) and len(st.targets) == 1 and isinstance(st.targets[0], ast.Name) \
                             and prov.cfg.kind[ds[0]] == "stmt":
-                        return prov.inline(st.value, st, depth - 1)
+                        return prov.inline(st.value, st, depth - 1, stop)
                     if isinstance(st, ast.For) and prov.cfg.kind[ds[0]] == "for" and isinstance(st.target, ast.Name):
-                        return ast.Call(func=ast.Name(id="EACH", ctx=ast.Load()), args=[prov.inline(st.iter, st, depth - 1)], keywords=[])
+                        return ast.Call(func=ast.Name(id="EACH", ctx=ast.Load()), args=[prov.inline(st.iter, st, depth - 1, stop)], keywords=[])
                     if isinstance(st, ast.Assign) and len(st.targets) == 1 and isinstance(st.targets[0], ast.Tuple) \
                             and prov.cfg.kind[ds[0]] == "stmt" and all(isinstance(x, ast.Name) for x in st.targets[0].elts):
                         i = [x.id for x in st.targets[0].elts].index(node.id)
-                        return ast.Subscript(value=prov.inline(st.value, st, depth - 1), slice=ast.Constant(i), ctx=ast.Load())
+                        return ast.Subscript(value=prov.inline(st.value, st, depth - 1, stop), slice=ast.Constant(i), ctx=ast.Load())
                 return ast.Name(id=f"PHI_{node.id}", ctx=ast.Load())
 
             def visit_Lambda(self, node):
@@ -95,7 +101,7 @@ class Prov:
 
         return T().visit(copy.deepcopy(expr))
 
-    def alternatives(self, name, at_stmt):
+    def alternatives(self, name, at_stmt, stop=()):
         """canonical text of every definition of local `name` that may reach at_stmt (None when one is not a plain assignment)"""
         out = set()
         for d in self.defs_at(at_stmt, name) or []:
@@ -104,10 +110,42 @@ class Prov:
                 continue
             st = self.cfg.stmt[d]
             if isinstance(st, ast.Assign) and len(st.targets) == 1 and isinstance(st.targets[0], ast.Name) and self.cfg.kind[d] == "stmt":
-                out.add(self.canon(st.value, st))
+                out.add(self.canon(st.value, st, stop=stop))
+            elif isinstance(st, ast.Assign) and len(st.targets) == 1 and isinstance(st.targets[0], ast.Tuple) and self.cfg.kind[d] == "stmt" \
+                    and all(isinstance(x, ast.Name) for x in st.targets[0].elts):
+                i = [x.id for x in st.targets[0].elts].index(name)
+                out.add(f"{self.canon(st.value, st, stop=stop)}[{i}]")
             else:
                 return None
         return out
+
+    def enclosing_tests(self, stmt):
+        """[(If node, taken-branch-is-body?)] for every `if` that encloses stmt, outermost first"""
+        out = []
+
+        def rec(body, acc):
+            for st in body:
+                if st is stmt:
+                    out.extend(acc)
+                    return True
+                if isinstance(st, ast.If):
+                    if rec(st.body, acc + [(st, True)]) or rec(st.orelse, acc + [(st, False)]):
+                        return True
+                elif not isinstance(st, (ast.FunctionDef, ast.AsyncFunctionDef, ast.ClassDef)):
+                    for fld in ("body", "orelse", "finalbody"):
+                        if rec(getattr(st, fld, []) or [], acc):
+                            return True
+                    for h in getattr(st, "handlers", []) or []:
+                        if rec(h.body, acc):
+                            return True
+            return False
+
+        rec(self.f.node.body, [])
+        return out
+
+    def guards(self, stmt, stop=()):
+        """canonical texts of the conditions under which stmt runs (negated tests prefixed with `not `)"""
+        return [("" if pos else "not ") + self.canon(i.test, i, stop=stop) for i, pos in self.enclosing_tests(stmt)]
 
     def callee(self, call_func):
         r = self.ix.resolve_expr(self.f.module, call_func)
@@ -121,8 +159,8 @@ class Prov:
             return r
         return None
 
-    def canon(self, expr, at_stmt, strip=True):
-        e = self.inline(expr, at_stmt)
+    def canon(self, expr, at_stmt, strip=True, stop=()):
+        e = self.inline(expr, at_stmt, stop=stop)
         prov = self
 
         class N(ast.NodeTransformer):
@@ -142,7 +180,7 @@ class Prov:
             def visit_Attribute(self, node):
                 self.generic_visit(node)
                 c = prov.callee(node) if isinstance(node.ctx, ast.Load) else None
-                if c is not None and not isinstance(node.value, ast.Call) and not (_root(node) or "").startswith(("P_", "PHI_")):
+                if c is not None and not isinstance(node.value, ast.Call) and not (_root(node) or "").startswith(("P_", "PHI_", "L_")):
                     return ast.Name(id=c, ctx=ast.Load())
                 return node
 
